@@ -114,6 +114,7 @@ class Evaluator:
         self._stack = []
         self.reads = []
         self.steps = 0
+        T.PHI_BUDGET[0] = 0
         self.exits = []
         self.sinks = []
         self.step_budget = 400000
@@ -409,6 +410,18 @@ class Evaluator:
                                      ast.unparse(target)))
         elif isinstance(target, ast.Subscript):
             base = target.value
+            if isinstance(base, ast.Name) and base.id in fr.env and T.tag(fr.env[base.id]) == 'dict' \
+                    and not isinstance(target.slice, ast.Slice):
+                key = self.expr(target.slice, fr)
+                cur = fr.env[base.id]
+                if T.is_const(key) and all(T.is_const(k_) for k_, _ in cur[1]):
+                    pairs = [(k_, v_) for k_, v_ in cur[1] if k_ != key]
+                    if len(pairs) == len(cur[1]):
+                        pairs.append((key, v))
+                    else:
+                        pairs = [(k_, (v if k_ == key else v_)) for k_, v_ in cur[1]]
+                    fr.env[base.id] = T.dct(pairs)
+                    return
             if isinstance(base, ast.Name) and base.id in fr.env:
                 fr.env[base.id] = T.opaque('subscript store on %s' % base.id)
             self.effects.append(('subscript-store', fr.fn.qual if fr.fn else None, target.lineno,
@@ -549,12 +562,57 @@ class Evaluator:
                 if not _has_fall(r):
                     break
             return acc
+        # an accumulation loop `for x in it: [temporaries]; acc.append(E)` over a symbolic iterable is the
+        # comprehension [E for x in it]
+        m = self._append_only_loop(st, it, fr)
+        if m:
+            return FALL
         # loop over a symbolic iterable: everything assigned inside is unknown afterwards
         self._havoc_targets(st, fr, 'loop over symbolic iterable at line %d' % st.lineno)
         self._scan_loop_effects(st, fr)
         if _contains_return(st.body):
             return T.phi(T.raw_op('BOOL', T.opaque('loop')), T.opaque('return inside loop'), FALL)
         return FALL
+
+    def _append_only_loop(self, st, it, fr):
+        body = st.body
+        if st.orelse or not body:
+            return False
+        last = body[-1]
+        if not (isinstance(last, ast.Expr) and isinstance(last.value, ast.Call) and isinstance(last.value.func, ast.Attribute)
+                and last.value.func.attr == 'append' and isinstance(last.value.func.value, ast.Name)
+                and len(last.value.args) == 1 and not last.value.keywords):
+            return False
+        acc = last.value.func.value.id
+        if fr.env.get(acc) != T.lst([]):
+            return False
+        for s_ in body[:-1]:
+            if not (isinstance(s_, ast.Assign) and len(s_.targets) == 1 and isinstance(s_.targets[0], ast.Name)):
+                return False
+        temps = {s_.targets[0].id for s_ in body[:-1]}
+        if acc in temps:
+            return False
+        saved = dict(fr.env)
+        if T.is_op(it, 'MAP') and it[5] == T.TRUE and it[6] == T.const('list'):
+            var, src, elem = it[2], it[4], it[3]
+        else:
+            depth_ = getattr(self, '_comp_depth', 0)
+            var = T.sym('each%d' % depth_, **_elem_meta(it))
+            src, elem = it, var
+        self.assign(st.target, elem, fr)
+        for s_ in body[:-1]:
+            r = self.stmt(s_, fr)
+            if r is not FALL:
+                fr.env = saved
+                return False
+        val = self.expr(last.value.args[0], fr)
+        for k in list(fr.env):
+            if k not in saved:
+                del fr.env[k]
+            else:
+                fr.env[k] = saved[k]
+        fr.env[acc] = T.raw_op('MAP', var, val, src, T.TRUE, T.const('list'))
+        return True
 
     def _loop_body(self, body, fr):
         for i, s in enumerate(body):
@@ -1019,9 +1077,47 @@ class Evaluator:
     def ex_DictComp(self, e, fr):
         return self._comp(e, fr, 'dict')
 
+    def _comp_nested(self, e, fr, kind):
+        """Several `for` clauses: supported when every iterable has a fixed shape (evaluated by unrolling)."""
+        saved = dict(fr.env)
+        out = []
+
+        def rec(gi):
+            if gi == len(e.generators):
+                if kind == 'dict':
+                    out.append((self.expr(e.key, fr), self.expr(e.value, fr)))
+                else:
+                    out.append(self.expr(e.elt, fr))
+                return True
+            g = e.generators[gi]
+            items = _fixed_items(self.expr(g.iter, fr))
+            if items is None or len(items) > UNROLL_BOUND:
+                return False
+            for item in items:
+                self.assign(g.target, item, fr)
+                keep = T.TRUE
+                for cnd in g.ifs:
+                    keep = T.and_(keep, self.decide(T.truth(self.expr(cnd, fr)), fr))
+                if keep == T.FALSE:
+                    continue
+                if keep != T.TRUE:
+                    return False
+                if not rec(gi + 1):
+                    return False
+            return True
+        ok = rec(0)
+        for k in list(fr.env):
+            if k not in saved:
+                del fr.env[k]
+            else:
+                fr.env[k] = saved[k]
+        if not ok:
+            return T.opaque('nested comprehension over a symbolic iterable')
+        return T.dct(out) if kind == 'dict' else self._lift_seq(out, T.lst)
+
     def _comp(self, e, fr, kind):
         if len(e.generators) != 1:
-            return T.opaque('nested comprehension')
+            return self._comp_nested(e, fr, kind)
         g = e.generators[0]
         it = self.expr(g.iter, fr)
         items = _fixed_items(it)
@@ -1029,21 +1125,35 @@ class Evaluator:
         entered = False
         try:
             if items is not None and len(items) <= UNROLL_BOUND:
-                out = []
+                out = []          # [(keep condition, element)]
+                n_sym = 0
                 for item in items:
                     self.assign(g.target, item, fr)
                     keep = T.TRUE
                     for cnd in g.ifs:
-                        keep = T.and_(keep, T.truth(self.expr(cnd, fr)))
+                        keep = T.and_(keep, self.decide(T.truth(self.expr(cnd, fr)), fr))
                     if keep == T.FALSE:
                         continue
                     if keep != T.TRUE:
-                        return T.opaque('comprehension filter on symbolic value')
+                        n_sym += 1
+                        if n_sym > 8:
+                            return T.opaque('comprehension filter on more than 8 symbolic values')
+                    f0 = fr.facts
+                    fr.facts = f0.add(keep)
                     if kind == 'dict':
-                        out.append((self.expr(e.key, fr), self.expr(e.value, fr)))
+                        out.append((keep, (self.expr(e.key, fr), self.expr(e.value, fr))))
                     else:
-                        out.append(self.expr(e.elt, fr))
-                return T.dct(out) if kind == 'dict' else T.lst(out)
+                        out.append((keep, self.expr(e.elt, fr)))
+                    fr.facts = f0
+
+                def build(i, acc):
+                    if i == len(out):
+                        return T.dct(acc) if kind == 'dict' else self._lift_seq(list(acc), T.lst)
+                    keep, el = out[i]
+                    if keep == T.TRUE:
+                        return build(i + 1, acc + [el])
+                    return T.phi(keep, build(i + 1, acc + [el]), build(i + 1, acc))
+                return build(0, [])
             # comprehension over a comprehension: compose the bodies
             if T.is_op(it, 'MAP') and it[5] == T.TRUE and it[6] == T.const('list') and not g.ifs and kind == 'list':
                 self.assign(g.target, it[3], fr)
@@ -1280,6 +1390,25 @@ class Evaluator:
         if lifted is not None:
             return lifted
         k = T.tag(callee)
+        for i, a in enumerate(args):
+            if isinstance(a, tuple) and a and a[0] == 'star':
+                v = a[1]
+                if T.tag(v) == 'raise':
+                    return v
+                if T.tag(v) == 'phi':
+                    def alt(x, i=i):
+                        if T.tag(x) == 'raise':
+                            return x
+                        items = _fixed_items(x)
+                        a2 = list(args[:i]) + (items if items is not None else [('star', x)]) + list(args[i + 1:])
+                        return self.apply(callee, a2, kwargs, fr, node)
+                    f0 = fr.facts
+                    r1 = alt(v[2])
+                    f1 = fr.facts
+                    fr.facts = f0
+                    r2 = alt(v[3])
+                    fr.facts = f1.meet(fr.facts)
+                    return T.phi(v[1], r1, r2)
         if any(isinstance(a, tuple) and a and a[0] == 'star' for a in args):
             return X.star_call(self, callee, args, kwargs, fr, node)
         if k == 'phi':
